@@ -26,7 +26,7 @@ func TestSubset(t *testing.T) {
 		{dir: "pos", file: "pos.go", name: "While", lean: "while", fuel: []string{"32"}},
 		{dir: "pos", file: "pos.go", name: "Forever", lean: "forever", fuel: []string{"33"}},
 		{dir: "pos", file: "pos.go", name: "Must", lean: "must"},
-		{dir: "pos", file: "pos.go", name: "View", lean: "view"},
+		{dir: "pos", file: "pos.go", name: "View", lean: "view", views: map[string]string{"b": "Count n pt.X pt.Y"}},
 		{dir: "pos", file: "pos.go", name: "Table", lean: "table", table: true},
 	}
 	withWhitelist(t, []string{""}, wl, func(out map[string]string, errs []error) {
@@ -46,7 +46,7 @@ func TestSubset(t *testing.T) {
 			"def forever_loop0 : Nat → BitVec 32 → Option (BitVec 32)\n  | 0, _ => none",
 			"def forever (s : BitVec 32) : Option (BitVec 32) :=\n  forever_loop0 (33) s",
 			"def must (k : BitVec 8) : Option (BitVec 8) :=\n  if (k == 1#8) then\n    some (2#8)\n  else\n    none",
-			"def view (b_Count : Int) (b_n : Int) (b_pt_X : Int) (d : Int) : Bool :=\n  let v : Int := b_Count",
+			"def view (b_Count : Int) (b_n : Int) (b_pt_X : Int) (b_pt_Y : Int) (d : Int) : Bool :=\n  let v : Int := b_Count", // pt.Y is declared but not read: still a parameter
 			"def table_neg (n : Int) (i : Int) : Int :=\n  (wrap8 (-i))",
 			"def table_shift (n : Int) (i : Int) : Int :=\n  (wrap8 ((table_neg n i) + (wrap8 n)))",
 			"def table (n : Int) (k : Fin 2) (i : Int) : Int :=\n  match k with\n  | 0 => table_neg n i\n  | 1 => table_shift n i",
@@ -71,9 +71,10 @@ func TestRejected(t *testing.T) {
 		{"CallsPanicky", "may panic"},
 		{"Slice", "parameter type []int"},
 		{"NoFuel", "no fuel given"},
+		{"Undeclared", "not among the views declared"},
 	}
 	for _, c := range cases {
-		wl := []fnSpec{{dir: "neg", file: "neg.go", name: "mayPanic", lean: "mayPanic"}, {dir: "neg", file: "neg.go", name: c.name, lean: "f"}}
+		wl := []fnSpec{{dir: "neg", file: "neg.go", name: "mayPanic", lean: "mayPanic"}, {dir: "neg", file: "neg.go", name: c.name, lean: "f", views: map[string]string{"b": "n"}}}
 		withWhitelist(t, []string{""}, wl, func(out map[string]string, errs []error) {
 			if len(errs) != 1 || !strings.Contains(errs[0].Error(), c.msg) {
 				t.Errorf("%s: expected one failure mentioning %q, got %v", c.name, c.msg, errs)
